@@ -175,6 +175,16 @@ fn gen_history(rng: &mut Rng, w: i32, h: i32, len: usize) -> Vec<Unit> {
                 units.push(Unit::One(Op::PopClip));
                 clip_depth -= 1;
             }
+            6 if clip_depth < 3 && rng.chance(0.5) => {
+                // a clip path that misses the enclosing clip rectangle, unwound again without drawing in between
+                let (x0, y0) = (rng.int(0, (w as i64 - 2).max(0)) as i32, rng.int(0, (h as i64 - 2).max(0)) as i32);
+                units.push(Unit::One(Op::PushClipRect(x0, y0, x0 + 2, y0 + 2)));
+                let p = if rng.chance(0.5) { rect_path(x0 as f32 + 3., 0., w as f32, h as f32) } else { rect_path(w as f32 + 10., -30., 5., 5.) };
+                units.push(Unit::One(Op::PushClip(p)));
+                units.push(Unit::One(Op::PopClip));
+                units.push(Unit::One(Op::PopClip));
+                units.push(Unit::One(Op::Fill(follower(rng, w, h), SrcSpec::Solid(premul_pixel(rng)), opts(BlendMode::SrcOver, 1., true))));
+            }
             3 | 4 => {
                 let t = match rng.below(8) {
                     0 => Transform::scale(0., 0.),
@@ -267,6 +277,10 @@ pub fn run_history(w: i32, h: i32, init: &[u32], units: &[Unit], st: &mut Stats,
         } else {
             break;
         };
+        // the steering may have unwound the clip stack: planned pops without a push are skipped
+        if matches!(unit, Unit::One(Op::PopClip)) && shadow.clips.is_empty() {
+            continue;
+        }
         let before = real.get_data().to_vec();
         let ops: Vec<Op> = match &unit {
             Unit::One(op) => vec![op.clone()],
@@ -315,10 +329,15 @@ pub fn run_history(w: i32, h: i32, init: &[u32], units: &[Unit], st: &mut Stats,
         if !s.rasterizer_idle {
             st.add("steering_rasterizer_not_idle_after_call", 1);
             if queue.is_empty() {
+                // make the leftovers visible: followers drawn without any clip under the identity
+                // (the queue is a stack: pushed in reverse order of execution)
                 for _ in 0..3 {
                     queue.push(Unit::One(Op::Fill(follower(steer, w, h), SrcSpec::Solid(0xff20c040), opts(BlendMode::SrcOver, 1., true))));
                 }
                 queue.push(Unit::One(Op::SetTransform(Transform::identity())));
+                for _ in 0..shadow.clips.len() {
+                    queue.push(Unit::One(Op::PopClip));
+                }
             }
         }
         if !s.cursor_empty {
